@@ -56,6 +56,10 @@ ASSUMPTIONS = ["node ids are non-negative Python ints (the name pattern (\\d+) a
                "well-formed matching instance: num_edges = number of stored edges, alternatives_name keyed by the nodes, "
                "num_alternatives = number of nodes, data_type 'wmd', at least one edge"]
 TIMEOUT_S = 60.0
+# (e) model-write(i) == impl.write(i) byte for byte.  False: recorded in the distribution only (the property does not
+# prescribe the bytes of the FIRST file, only that the second file equals it: a harmless change of the layout that both
+# readers accept must not raise an alarm).  True: a difference is a violation.
+STRICT_E = False
 CHUNK = 20
 
 META_FIELDS = ["file_name", "title", "description", "data_type", "modification_type", "relates_to", "related_files",
@@ -696,6 +700,8 @@ def judge(c, r, mres):
         bad = same_as_original(r[key]["ok"], b, what)
         if bad:
             return bad
+    if STRICT_E and mw[1] != r["text1"]:
+        return "(e) model-write(i) differs from impl.write(i)"
     # the model's own round trip (what C09_roundtrip / C09_idempotent describe) agrees with the original
     rt, t1, t2 = m_rt
     if rt[0] != 0:
